@@ -331,6 +331,8 @@ pub fn contexts(core: &str, d: &Delims, n: &Names, level: u8) -> Vec<String> {
 }
 
 struct Bounds {
+    /// G-tok: pairs explored one atom deeper than `tok_n`
+    tok_deep_pairs: Vec<usize>,
     /// G-ast passes: (grammar parameters, delimiter pairs)
     asts: Vec<(AstParams, Vec<usize>)>,
     ast_ctx: u8,
@@ -369,8 +371,10 @@ fn bounds(p: P, tier: Tier) -> Bounds {
             )],
             ast_ctx: 1,
             lines: vec![(5, true, vec![0], 3)],
+            tok_deep_pairs: vec![],
             tok_n: 5,
-            tok_pairs: vec![0, 1, 8],
+            // C01 also covers a spelling with leading / trailing spaces (index POOL.len())
+            tok_pairs: if p == P::C01 { vec![0, 1, 8, gen::POOL.len()] } else { vec![0, 1, 8] },
             tok_ctx_n: 3,
         },
         Tier::Thorough => Bounds {
@@ -402,7 +406,7 @@ fn bounds(p: P, tier: Tier) -> Bounds {
                         mb: true,
                         ..base.clone()
                     },
-                    if p == P::C01 { vec![0, 6] } else { vec![0, 1, 6, 8] },
+                    if p == P::C01 { vec![0] } else { vec![0, 6] },
                 ),
                 // deep: 8 lines, nesting depth 3, two kinds (6.0e5 trees)
                 (
@@ -420,8 +424,13 @@ fn bounds(p: P, tier: Tier) -> Bounds {
             ],
             ast_ctx: 1,
             lines: vec![(6, true, vec![0, 1], 4), (5, false, vec![0], 3)],
-            tok_n: 6,
-            tok_pairs: all_pairs,
+            tok_deep_pairs: vec![0, 1],
+            tok_n: 5,
+            tok_pairs: {
+                let mut v = all_pairs;
+                v.push(gen::POOL.len());
+                v
+            },
             tok_ctx_n: 4,
         },
     }
@@ -530,7 +539,7 @@ pub fn run(r: &Report, p: P) {
             |l: &mut Local, items, trace| {
                 l.transition(trace.len() as u64);
                 for (pi, &pair) in ast_pairs.iter().enumerate() {
-                    let d = &gen::POOL[pair];
+                    let d = gen::pool_any(pair);
                     for final_newline in [true, false] {
                         let rd = gen::render(
                             &items,
@@ -605,7 +614,7 @@ pub fn run(r: &Report, p: P) {
         if r.stopped() {
             break;
         }
-        let d = &gen::POOL[pair];
+        let d = gen::pool_any(pair);
         let atoms = gen::line_atoms(d, &names, line_reduced);
         let counted = explore_seqs(
             &atoms,
@@ -642,7 +651,7 @@ pub fn run(r: &Report, p: P) {
     // ---- phase 4: tags on unwrap wrapper lines --------------------------------------------
     if !r.stopped() {
         for &pair in &[0usize, 1] {
-            let d = &gen::POOL[pair];
+            let d = gen::pool_any(pair);
             let single = crate::explore::count_choices(|ch| touching_family(ch, d, &names));
             let counted = explore_choices(
                 |ch: &mut Chooser| touching_family(ch, d, &names),
@@ -668,11 +677,12 @@ pub fn run(r: &Report, p: P) {
         if r.stopped() {
             break;
         }
-        let d = &gen::POOL[pair];
+        let d = gen::pool_any(pair);
         let atoms = doc_tok_atoms(d, &names);
+        let tok_n = if b.tok_deep_pairs.contains(&pair) { b.tok_n + 1 } else { b.tok_n };
         let counted = explore_seqs(
             &atoms,
-            b.tok_n,
+            tok_n,
             || r.local(),
             |l: &mut Local, idx, doc| {
                 l.transition(if idx.is_empty() { 0 } else { 1 });
@@ -690,8 +700,8 @@ pub fn run(r: &Report, p: P) {
             &|| r.stopped(),
         );
         r.expect_count(
-            &format!("G-tok {:?}/{:?} atoms={} N={}", d.ds, d.de, atoms.len(), b.tok_n),
-            seq_count(atoms.len() as u64, b.tok_n as u32),
+            &format!("G-tok {:?}/{:?} atoms={} N={}", d.ds, d.de, atoms.len(), tok_n),
+            seq_count(atoms.len() as u64, tok_n as u32),
             counted,
         );
     }
